@@ -1,6 +1,9 @@
 #!/bin/bash
-# Build the fixed part of the Coq development (full .vo build, no -vos) from files on disk only.
+# Build the fixed part of the Coq development (full .vo build, no -vos) from files on disk only,
+# after auditing the sources for declared axioms / admitted proofs / disabled kernel checks.
 set -e
-cd "$(dirname "$0")/coq"
+here="$(cd "$(dirname "$0")" && pwd)"
+"$here/tools/audit.sh"
+cd "$here/coq"
 coq_makefile -f _CoqProject -o Makefile.coq >/dev/null
 timeout 3000 make -f Makefile.coq -j16
